@@ -81,6 +81,7 @@ func c09Run(c c09Case) Verdict {
 	w.Recv()
 	fail := func(v Verdict) Verdict { w.Finish(); return v }
 	greeted, tls, authed := false, c.TLS == "implicit", false
+	authMaybe := false // authenticated before a failed TLS handshake: kept or not
 	nSASL := 0
 	nev := 0
 	v := Verdict{}
@@ -150,7 +151,7 @@ func c09Run(c c09Case) Verdict {
 				}
 				w.WaitQuiet()
 				nev = len(r.B.Events())
-				tls, greeted, authed = true, false, false
+				tls, greeted, authed, authMaybe = true, false, false, false
 				cls["auth_state_across_starttls"] = true
 			} else if rs[0].Class() != 5 {
 				return fail(failf("starttls", "STARTTLS not available but answered %s", rs[0]))
@@ -195,6 +196,12 @@ func c09Run(c c09Case) Verdict {
 				}
 			}
 			greeted = true
+			if authed {
+				// whether an authentication survives an upgrade that failed
+				// is not specified either ("erased by STARTTLS" speaks of
+				// one that succeeded): the next attempt tells
+				authed, authMaybe = false, true
+			}
 		case "auth":
 			if a.IR != nil && *a.IR == "" {
 				a.IR = nil // an empty token cannot be sent: it is "no initial response" ("=" is the empty one)
@@ -242,6 +249,13 @@ func c09Run(c c09Case) Verdict {
 			irOK := true
 			if a.IR != nil {
 				irBytes, irOK = decodeToken(*a.IR, true)
+			}
+			if authMaybe && greeted {
+				cls["auth_state_after_failed_handshake_unspecified"] = true
+				if len(rs) == 1 && final.Code == 503 {
+					authed = true // it was kept
+				}
+				authMaybe = false
 			}
 			switch {
 			case !greeted:
